@@ -468,8 +468,14 @@ where
         // This has to look at the type of `inner`, not at the collector type
         // `C`: when two subscribers are combined with `and_then`, `inner` is
         // another subscriber whose own level hint must not be ignored.
+        // (a boxed or shared `Registry` is still the registry)
         #[cfg(all(feature = "registry", feature = "std"))]
-        let inner_is_registry = TypeId::of::<B>() == TypeId::of::<crate::registry::Registry>();
+        let inner_is_registry = {
+            let inner = TypeId::of::<B>();
+            inner == TypeId::of::<Registry>()
+                || inner == TypeId::of::<alloc::boxed::Box<Registry>>()
+                || inner == TypeId::of::<alloc::sync::Arc<Registry>>()
+        };
         #[cfg(not(all(feature = "registry", feature = "std")))]
         let inner_is_registry = false;
 
